@@ -40,6 +40,9 @@ type Violation struct {
 	Rule     string `json:"rule"`
 	Msg      string `json:"msg"`
 	Shape    string `json:"shape,omitempty"` // what identifies the failing input / call site (known-findings key)
+	// Parts refines Shape with a set of items (for example the kinds of stage outputs the workflow
+	// outputs were waiting for); a known finding that lists parts matches only if all of them are listed.
+	Parts []string `json:"parts,omitempty"`
 }
 
 // Spec turns a case into a harness run.
